@@ -63,7 +63,7 @@ fn bound(s: &str) -> Bound<Vec<u8>> {
 }
 
 fn obs_kv(kv: &sst::KeyValueRef) -> String {
-    format!("{}={}", hx0(kv.key), match kv.value { Some(v) => hx0(v), None => "~".to_string() })
+    format!("{}@{}={}", hx0(kv.key), kv.timestamp, match kv.value { Some(v) => hx0(v), None => "~".to_string() })
 }
 
 fn obs(c: &impl Cursor) -> String {
@@ -306,12 +306,15 @@ fn main() {
                     // `gate`: park the memtable thread right after it has ingested the new sst and
                     // BEFORE it clears the immutable memtable, so that the snapshot holds the
                     // immutable memtable AND the version that already contains its sst (imm=2)
-                    let gate = t.len() > 5 && t[5] == "gate";
+                    // `pre`: park it right BEFORE the ingest instead (gate f_sealed): the snapshot holds
+                    // the immutable memtable and the version from before the ingest (imm=1, for certain)
+                    let point: &str = if t.len() > 5 && t[5] == "gate" { "f_ingested" } else if t.len() > 5 && t[5] == "pre" { "f_sealed" } else { "" };
+                    let gate = !point.is_empty();
                     if gate {
-                        KeyValueStore::verif_gate_arm("f_ingested", MEMTABLE_TID, 0);
+                        KeyValueStore::verif_gate_arm(point, MEMTABLE_TID, 0);
                     }
                     let target = kvs.verif_request_flush();
-                    let parked = gate && KeyValueStore::verif_gate_wait_parked("f_ingested", MEMTABLE_TID, std::time::Duration::from_secs(30));
+                    let parked = gate && KeyValueStore::verif_gate_wait_parked(point, MEMTABLE_TID, std::time::Duration::from_secs(30));
                     let line = match kvs.range_scan(&lo, &hi) {
                         Err(e) => {
                             KeyValueStore::verif_gate_release_all();
@@ -322,12 +325,12 @@ fn main() {
                             let imm = kvs.verif_state().has_imm;
                             let half = run_prog("", &mut c, t[3]);
                             if gate {
-                                KeyValueStore::verif_gate_release("f_ingested", MEMTABLE_TID);
+                                KeyValueStore::verif_gate_release(point, MEMTABLE_TID);
                             }
                             kvs.verif_wait_flush(target);
                             // a second program on the same cursor after the flush has completed
                             let rest = run_prog("", &mut c, t[4]);
-                            format!("FLUSHSCAN {target} imm={}{half} |{rest}", if parked && imm { 2 } else { imm as u8 })
+                            format!("FLUSHSCAN {target} imm={}{half} |{rest}", if parked && imm && point == "f_ingested" { 2 } else if parked && imm { 3 } else { imm as u8 })
                         }
                     };
                     line
